@@ -2,18 +2,166 @@ package rt
 
 import (
 	"encoding/json"
+	"flag"
+	"fmt"
+	"hash/fnv"
 	"os"
+	"reflect"
+	"sort"
+	"strings"
+	"sync"
 	"testing"
+
+	"github.com/hashicorp/terraform-plugin-framework/attr"
+	"github.com/hashicorp/terraform-plugin-framework/diag"
+	"github.com/hashicorp/terraform-plugin-framework/tfsdk"
+	"github.com/hashicorp/terraform-plugin-framework/types"
+	"pgregory.net/rapid"
+
+	"verif/model"
 )
 
 // Spec tells a compiled case what to do.
 type Spec struct {
-	Prop     string            `json:"prop"`
-	Models   map[string]string `json:"models"` // variant -> model file
-	Checks   int               `json:"checks"`
-	Seed     uint64            `json:"seed"`
-	Params   map[string]string `json:"params,omitempty"`
+	Prop   string            `json:"prop"`
+	Models map[string]string `json:"models"` // variant -> model file (relative to the case dir)
+	Params map[string]string `json:"params,omitempty"`
 }
+
+// Result is what the compiled case reports back to the outer level.
+type Result struct {
+	Prop        string         `json:"prop"`
+	Evaluations int            `json:"evaluations"`
+	Nontrivial  []uint64       `json:"nontrivial"`
+	Classes     map[string]int `json:"classes"`
+	Samples     []string       `json:"samples"`
+	Violation   string         `json:"violation,omitempty"`
+	Harness     string         `json:"harness,omitempty"` // fault of the harness itself
+	seen        map[uint64]bool
+	failed      bool
+	mu          sync.Mutex
+}
+
+func (r *Result) Class(c string) {
+	if r.failed {
+		return
+	}
+	r.Classes[c]++
+}
+
+func (r *Result) Nontriv(desc string) {
+	if r.failed {
+		return
+	}
+	h := fnv.New64a()
+	h.Write([]byte(desc))
+	s := h.Sum64()
+	if !r.seen[s] {
+		r.seen[s] = true
+		r.Nontrivial = append(r.Nontrivial, s)
+	}
+}
+
+func (r *Result) Sample(s string) {
+	if r.failed || len(r.Samples) >= 3 {
+		return
+	}
+	if len(s) > 1500 {
+		s = s[:1500] + "…"
+	}
+	r.Samples = append(r.Samples, s)
+}
+
+// RootCtx is a registered root type bound to its model and run-time schema.
+type RootCtx struct {
+	R      *Root
+	M      *model.Msg
+	Mdl    *model.Model
+	B      *MsgB
+	Schema tfsdk.Schema
+	Type   types.ObjectType
+}
+
+// Env is the whole compiled case.
+type Env struct {
+	Spec   Spec
+	Roots  []*RootCtx
+	ByVar  map[string][]*RootCtx
+	Res    *Result
+	Params map[string]string
+}
+
+func (e *Env) Param(k, def string) string {
+	if v, ok := e.Params[k]; ok {
+		return v
+	}
+	return def
+}
+
+// Fail records a violation and fails the rapid case.
+func (e *Env) Fail(t *rapid.T, format string, args ...interface{}) {
+	msg := fmt.Sprintf(format, args...)
+	e.Res.Violation = msg
+	e.Res.failed = true
+	t.Fatalf("%s", msg)
+}
+
+func safeSchema(r *Root) (s tfsdk.Schema, d diag.Diagnostics, p string) {
+	defer func() {
+		if x := recover(); x != nil {
+			p = fmt.Sprint(x)
+		}
+	}()
+	s, d = r.Schema(bg)
+	return
+}
+
+// CopyTo calls the generated CopyTToTerraform, turning a panic into a message.
+func (rc *RootCtx) CopyTo(src reflect.Value, obj *types.Object) (d diag.Diagnostics, p string) {
+	defer func() {
+		if x := recover(); x != nil {
+			p = fmt.Sprint(x)
+		}
+	}()
+	d = rc.R.To(bg, src.Interface(), obj)
+	return
+}
+
+// CopyFrom calls the generated CopyTFromTerraform, turning a panic into a message.
+func (rc *RootCtx) CopyFrom(obj types.Object, dst reflect.Value) (d diag.Diagnostics, p string) {
+	defer func() {
+		if x := recover(); x != nil {
+			p = fmt.Sprint(x)
+		}
+	}()
+	d = rc.R.From(bg, obj, dst.Interface())
+	return
+}
+
+func (rc *RootCtx) New() reflect.Value { return reflect.ValueOf(rc.R.New()) }
+
+func (rc *RootCtx) Empty() types.Object { return types.Object{AttrTypes: rc.Type.AttrTypes} }
+
+func diagStrings(d diag.Diagnostics) []string {
+	var out []string
+	for _, x := range d {
+		out = append(out, fmt.Sprintf("%s|%s|%s", x.Severity(), x.Summary(), x.Detail()))
+	}
+	sort.Strings(out)
+	return out
+}
+
+func errorDiags(d diag.Diagnostics) []string {
+	var out []string
+	for _, x := range d {
+		if x.Severity() == diag.SeverityError {
+			out = append(out, x.Summary()+": "+x.Detail())
+		}
+	}
+	return out
+}
+
+var inner = map[string]func(t *rapid.T, e *Env){}
 
 // Run is the single test of a compiled case.
 func Run(t *testing.T) {
@@ -21,13 +169,95 @@ func Run(t *testing.T) {
 	if p == "" {
 		t.Skip("no VERIF_SPEC")
 	}
+	res := &Result{Classes: map[string]int{}, seen: map[uint64]bool{}}
+	defer func() {
+		if out := os.Getenv("VERIF_OUT"); out != "" {
+			b, _ := json.MarshalIndent(res, "", " ")
+			_ = os.WriteFile(out, b, 0o644)
+		}
+	}()
+	harness := func(format string, a ...interface{}) {
+		res.Harness = fmt.Sprintf(format, a...)
+		t.Fatalf("harness: %s", res.Harness)
+	}
 	b, err := os.ReadFile(p)
 	if err != nil {
-		t.Fatalf("spec: %v", err)
+		harness("spec: %v", err)
 	}
-	var s Spec
-	if err := json.Unmarshal(b, &s); err != nil {
-		t.Fatalf("spec: %v", err)
+	env := &Env{ByVar: map[string][]*RootCtx{}, Res: res}
+	if err := json.Unmarshal(b, &env.Spec); err != nil {
+		harness("spec: %v", err)
 	}
-	_ = s
+	env.Params = env.Spec.Params
+	res.Prop = env.Spec.Prop
+	variants := make([]string, 0, len(env.Spec.Models))
+	for v := range env.Spec.Models {
+		variants = append(variants, v)
+	}
+	sort.Strings(variants)
+	for _, v := range variants {
+		mb, err := os.ReadFile(env.Spec.Models[v])
+		if err != nil {
+			harness("model: %v", err)
+		}
+		var mdl model.Model
+		if err := json.Unmarshal(mb, &mdl); err != nil {
+			harness("model: %v", err)
+		}
+		for _, m := range mdl.Roots {
+			r := findRoot(v, m.Name)
+			if r == nil {
+				harness("root %s/%s not registered", v, m.Name)
+			}
+			rc := &RootCtx{R: r, M: m, Mdl: &mdl}
+			s, d, pn := safeSchema(r)
+			if pn != "" {
+				res.Violation = fmt.Sprintf("GenSchema%s panicked: %s", m.Name, pn)
+				t.Fatalf("%s", res.Violation)
+			}
+			if d.HasError() {
+				res.Violation = fmt.Sprintf("GenSchema%s returned error diagnostics: %v", m.Name, errorDiags(d))
+				t.Fatalf("%s", res.Violation)
+			}
+			rc.Schema = s
+			ot, ok := s.AttributeType().(types.ObjectType)
+			if !ok {
+				harness("schema type is %T", s.AttributeType())
+			}
+			rc.Type = ot
+			bnd, err := Bind(m, reflect.TypeOf(r.New()))
+			if err != nil {
+				harness("bind: %v", err)
+			}
+			rc.B = bnd
+			env.Roots = append(env.Roots, rc)
+			env.ByVar[v] = append(env.ByVar[v], rc)
+		}
+	}
+	if len(env.Roots) == 0 {
+		harness("no roots")
+	}
+	fn := inner[env.Spec.Prop]
+	if fn == nil {
+		harness("no inner property %q", env.Spec.Prop)
+	}
+	setupHooks()
+	_ = flag.CommandLine
+	rapid.Check(t, func(rt *rapid.T) {
+		if !res.failed {
+			res.Evaluations++
+		}
+		fn(rt, env)
+	})
+}
+
+func drawRoot(t *rapid.T, e *Env) *RootCtx {
+	return e.Roots[rapid.IntRange(0, len(e.Roots)-1).Draw(t, "root")]
+}
+
+func typeName(t attr.Type) string {
+	if t == nil {
+		return "<nil>"
+	}
+	return strings.ReplaceAll(t.String(), "github.com/hashicorp/terraform-plugin-framework/", "")
 }
